@@ -219,6 +219,9 @@ pub fn leg_http(thorough: bool, seed: u64) -> Value {
                     match kind {
                         0..=3 => {
                             let p = if rng.below(3) > 0 { c.latest } else { pick(&mut rng) };
+                            if !s.universe.contains(&p) {
+                                s.universe.push(p); // the read-back must also ask for the child of this id
+                            }
                             let r = ReqSpec { method: "POST", uri: uri_av(p), client_id: Some(me.to_string().into_bytes()), content_type: Some(HS_CT.into()), chunks: split(&payload, how) };
                             s.trace.push(format!("POST add-version parent={p} client={me} body={}B split#{how}", payload.len()));
                             let d = match call(&app, &r).await {
